@@ -4,8 +4,12 @@
 #![allow(clippy::needless_range_loop)]
 #![allow(clippy::too_many_arguments)]
 
+pub mod cones;
 pub mod dd;
 pub mod dense;
+pub mod gen;
+pub mod kkt;
+pub mod problem;
 pub mod report;
 pub mod rng;
 
